@@ -1824,4 +1824,459 @@ theorem reachable_inv {c : Cfg} (hn : 0 < c.n) (hmut : c.mutAddOpen = false) {s 
       step_invC c hmut s s' a hh.a hh.c' hs⟩)
     run _ _ ⟨init_invA c, init_invB c hn, init_invC c⟩ hr
 
+/-! ## stage order (C15) -/
+
+/-- well-formedness of a stage table (holds for the generated one: `Props/C15.lean`) -/
+structure Cfg.WF (c : Cfg) : Prop where
+  npos : 0 < c.n
+  conc_not_stw : (c.info c.concIdx).isStw = false
+  uncon_not_stw : (c.info c.unconIdx).isStw = false
+  seq_def : ∀ b, (c.info b).isSeq = ((c.info b).isStw && !(c.info b).isFirstStw)
+  first_is_stw : ∀ b, (c.info b).isFirstStw = true → (c.info b).isStw = true
+
+/-! ### `close_all_stw_buckets` -/
+
+theorem closeLoop_props (c : Cfg) (bs : List Nat) : ∀ (s s' : State), closeStwLoop c s bs = some s' →
+    (∀ b, (s'.bkt b).isOpen = true → (s.bkt b).isOpen = true) ∧
+    (∀ b, b ∈ bs → (c.info b).isStw = true → (s'.bkt b).isOpen = false) ∧
+    (∀ b, (s'.bkt b).q = (s.bkt b).q ∧ (s'.bkt b).enabled = (s.bkt b).enabled ∧ (s'.bkt b).sentinel = (s.bkt b).sentinel) ∧
+    (∀ b, (c.info b).isStw = false → s'.bkt b = s.bkt b) := by
+  induction bs with
+  | nil => intro s s' h; simp [closeStwLoop] at h; subst h; exact ⟨fun _ h => h, fun _ h => (nomatch h), fun _ => ⟨rfl, rfl, rfl⟩, fun _ _ => rfl⟩
+  | cons b0 bs ih =>
+    intro s s' h
+    unfold closeStwLoop at h
+    split at h
+    · rename_i hstw
+      split at h
+      · obtain ⟨i1, i2, i3, i4⟩ := ih _ _ h
+        have hclose : ∀ b, ((closeBkt s b0).bkt b).isOpen = true → (s.bkt b).isOpen = true := by
+          intro b hb
+          simp only [closeBkt, emit, setBkt] at hb
+          by_cases e : b = b0
+          · simp [e] at hb
+          · simpa [e] using hb
+        refine ⟨fun b hb => hclose b (i1 b hb), ?_, ?_, ?_⟩
+        · intro b hb hs
+          rcases List.mem_cons.mp hb with e | e
+          · subst e
+            cases ho : (s'.bkt b).isOpen with
+            | false => rfl
+            | true => have := i1 b ho; simp [closeBkt, emit, setBkt] at this
+          · exact i2 b e hs
+        · intro b
+          obtain ⟨q1, q2, q3⟩ := i3 b
+          simp only [closeBkt, emit, setBkt] at q1 q2 q3
+          by_cases e : b = b0
+          · subst e; simp only [if_true] at q1 q2 q3; exact ⟨q1, q2, q3⟩
+          · simp only [e, if_false] at q1 q2 q3; exact ⟨q1, q2, q3⟩
+        · intro b hb
+          rw [i4 b hb]
+          simp only [closeBkt, emit, setBkt]
+          have : b ≠ b0 := fun e => by rw [e, hstw] at hb; cases hb
+          simp [this]
+      · cases h
+    · rename_i hstw
+      obtain ⟨i1, i2, i3, i4⟩ := ih _ _ h
+      refine ⟨i1, ?_, i3, i4⟩
+      intro b hb hs
+      rcases List.mem_cons.mp hb with e | e
+      · subst e; exact absurd hs hstw
+      · exact i2 b e hs
+
+/-- **the state `on_gc_finished` leaves behind**: every stop-the-world bucket is closed and empty -/
+theorem onGcFinished_closed (c : Cfg) (hwf : c.WF) (s s' : State) (h : onGcFinished c s = some s') :
+    ∀ b, b < c.L → (c.info b).isStw = true → (s'.bkt b).isOpen = false ∧ (s'.bkt b).q = [] := by
+  unfold onGcFinished at h
+  split at h
+  · cases h
+  · rename_i hempty
+    split at h
+    · cases h
+    · rename_i hall
+      split at h
+      · cases h
+      · rename_i s1 hc
+        injection h with h; subst h
+        obtain ⟨_, i2, i3, _⟩ := closeLoop_props c _ _ _ hc
+        intro b hb hstw
+        have hne : b ≠ c.concIdx := fun e => by rw [e, hwf.conc_not_stw] at hstw; cases hstw
+        have hbk : ((resume (schedConcurrent c s1)).bkt b) = s1.bkt b := by
+          simp only [resume, emit]
+          unfold schedConcurrent
+          split <;> simp [emit, setBkt, hne]
+        rw [hbk]
+        refine ⟨i2 b (List.mem_range.mpr hb) hstw, ?_⟩
+        rw [(i3 b).1]
+        have hall' : allStwEmpty c s = true := by simpa using hall
+        unfold allStwEmpty at hall'
+        have := (List.all_eq_true.mp hall') b (List.mem_range.mpr hb)
+        simp only [hstw, Bool.not_true, Bool.false_or, Bucket.isEmpty] at this
+        simp only [emit]
+        exact List.isEmpty_iff.mp this
+
+theorem respond_bkt_stw (c : Cfg) (hwf : c.WF) (s s' : State) (tag : Nat) (r : LPR) (h : respond c s tag = some (s', r))
+    (b : Nat) (hstw : (c.info b).isStw = true) : s'.bkt b = s.bkt b := by
+  unfold respond at h
+  split at h
+  · cases h
+  · split at h
+    · injection h with h; injection h with h1 _; subst h1
+      have hne : b ≠ c.unconIdx := fun e => by rw [e, hwf.uncon_not_stw] at hstw; cases hstw
+      simp [addScheduleCollection, emit, pushBkt, setBkt, bump, hne]
+    · split at h
+      · injection h with h; injection h with h1 _; subst h1; rfl
+      · split at h
+        · injection h with h; injection h with h1 _; subst h1; rfl
+        · injection h with h; injection h with h1 _; subst h1; rfl
+
+
+theorem respond_gcDone (c : Cfg) (s s' : State) (tag : Nat) (r : LPR) (h : respond c s tag = some (s', r)) :
+    s'.gcDone = s.gcDone := by
+  unfold respond at h
+  split at h
+  · cases h
+  · split at h
+    · injection h with h; injection h with h1 _; subst h1; rfl
+    · split at h
+      · injection h with h; injection h with h1 _; subst h1; rfl
+      · split at h
+        · injection h with h; injection h with h1 _; subst h1; rfl
+        · injection h with h; injection h with h1 _; subst h1; rfl
+
+theorem onGcFinished_gcDone (c : Cfg) (s s' : State) (h : onGcFinished c s = some s') : s'.gcDone = s.gcDone := by
+  unfold onGcFinished at h
+  split at h
+  · cases h
+  · split at h
+    · cases h
+    · split at h
+      · cases h
+      · rename_i s1 hc
+        injection h with h; subst h
+        have h1 := (sbb_closeLoop c _ _ _ hc).counters.2.2.1
+        have h2 := (sbb_schedConcurrent c s1).counters.2.2.1
+        show (schedConcurrent c s1).gcDone = _
+        rw [h2, h1]; rfl
+
+/-- **C15 core**: if `on_last_parked` completes a GC, every stop-the-world bucket is closed and empty
+afterwards; otherwise `gcDone` is unchanged -/
+theorem onLastParked_gc_end (c : Cfg) (hwf : c.WF) (s s' : State) (tag : Nat) (r : LPR)
+    (h : onLastParked c s tag = some (s', r)) :
+    s'.gcDone = s.gcDone ∨
+    (s'.gcDone = s.gcDone + 1 ∧ s.current = some .gc ∧
+      ∀ b, b < c.L → (c.info b).isStw = true → (s'.bkt b).isOpen = false ∧ (s'.bkt b).q = []) := by
+  unfold onLastParked at h
+  split at h
+  · exact Or.inl (respond_gcDone c _ _ _ _ h)
+  · rename_i hcur
+    split at h
+    · cases h
+    · split at h
+      · cases h
+      · split at h
+        · injection h with h; injection h with h1 _; subst h1; exact Or.inl rfl
+        · split at h
+          · injection h with h; injection h with h1 _; subst h1
+            exact Or.inl (sbb_schedSentinels c s).counters.2.2.1
+          · split at h
+            · injection h with h; injection h with h1 _; subst h1
+              exact Or.inl (((sbb_updateBuckets c _).counters.2.2.1).trans (sbb_schedSentinels c s).counters.2.2.1)
+            · split at h
+              · cases h
+              · rename_i s3 hg3
+                have g2 : (updateBuckets c (schedSentinels c s).1).1.gcDone = s.gcDone :=
+                  ((sbb_updateBuckets c _).counters.2.2.1).trans (sbb_schedSentinels c s).counters.2.2.1
+                have g3 : s3.gcDone = s.gcDone := (onGcFinished_gcDone c _ _ hg3).trans g2
+                have cl := onGcFinished_closed c hwf _ _ hg3
+                right
+                split at h
+                · injection h with h; injection h with h1 _; subst h1
+                  exact ⟨by show s3.gcDone + 1 = _; rw [g3], hcur, fun b hb hs => cl b hb hs⟩
+                · refine ⟨?_, hcur, fun b hb hs => ?_⟩
+                  · rw [respond_gcDone c _ _ _ _ h]; show s3.gcDone + 1 = _; rw [g3]
+                  · rw [respond_bkt_stw c hwf _ _ _ _ h b hs]; exact cl b hb hs
+  · cases h
+
+
+def SameQ (s0 s : State) : Prop := ∀ k, (s.bkt k).q = (s0.bkt k).q ∧ (s.bkt k).enabled = (s0.bkt k).enabled
+
+theorem takeSentinel_isOpen (s : State) (b k : Nat) : ((takeSentinel s b).bkt k).isOpen = (s.bkt k).isOpen := by
+  unfold takeSentinel
+  split
+  · simp only [emit, setBkt]; split
+    · rename_i e; subst e; rfl
+    · rfl
+  · rfl
+
+theorem canOpenNow_facts {c : Cfg} {s : State} {b : Nat} (h : canOpenNow c s b = true) :
+    (c.info b).isSeq = true ∧ (s.bkt b).isOpen = false ∧
+    ∀ b', b' ∈ curStages c b → (s.bkt b').enabled = true → (s.bkt b').q = [] := by
+  unfold canOpenNow at h
+  simp only [Bool.and_eq_true, Bool.not_eq_true'] at h
+  refine ⟨h.1.1, h.1.2, ?_⟩
+  intro b' hb' he
+  have := (List.all_eq_true.mp h.2) b' hb'
+  simp only [Bucket.isDrained, he, Bool.not_true, Bool.false_or, Bool.and_eq_true, Bucket.isEmpty] at this
+  exact List.isEmpty_iff.mp this.2
+
+theorem openBkt_isOpen (s : State) (b k : Nat) : ((openBkt s b).bkt k).isOpen = true → k = b ∨ (s.bkt k).isOpen = true := by
+  simp only [openBkt, emit, setBkt]
+  split
+  · intro _; left; assumption
+  · intro h; right; exact h
+
+theorem sameQ_openBkt {s0 s : State} (h : SameQ s0 s) (b : Nat) : SameQ s0 (openBkt s b) := by
+  intro k
+  simp only [openBkt, emit, setBkt]
+  split
+  · rename_i e; subst e; exact h k
+  · exact h k
+
+/-- a sequentially opened bucket that `update_buckets` opens: every enabled earlier bucket (and the
+first stop-the-world bucket) was empty when the loop started -/
+theorem updateLoop_opens (c : Cfg) (s0 : State) (bs : List Nat) : ∀ (s : State) (u : Bool), SameQ s0 s →
+    ∀ b, ((updateLoop c s bs u).1.bkt b).isOpen = true → (s.bkt b).isOpen = false →
+      (c.info b).isSeq = true ∧ ∀ b', b' ∈ curStages c b → (s0.bkt b').enabled = true → (s0.bkt b').q = [] := by
+  induction bs with
+  | nil => intro s u _ b h1 h2; simp only [updateLoop] at h1; rw [h1] at h2; cases h2
+  | cons b0 bs ih =>
+    intro s u hq b h1 h2
+    have fromOpen : canOpenNow c s b0 = true → b = b0 →
+        (c.info b).isSeq = true ∧ ∀ b', b' ∈ curStages c b → (s0.bkt b').enabled = true → (s0.bkt b').q = [] := by
+      intro hc e; subst e
+      obtain ⟨f1, _, f3⟩ := canOpenNow_facts hc
+      refine ⟨f1, fun b' hb' he => ?_⟩
+      rw [← (hq b').1]; apply f3 b' hb'; rw [(hq b').2]; exact he
+    unfold updateLoop at h1
+    split at h1
+    · exact ih _ _ hq b h1 h2
+    · split at h1
+      · exact ih _ _ hq b h1 h2
+      · split at h1
+        · rename_i hc
+          split at h1
+          · rcases openBkt_isOpen s b0 b h1 with e | e
+            · exact fromOpen hc e
+            · rw [e] at h2; cases h2
+          · split at h1
+            · rw [takeSentinel_isOpen] at h1
+              rcases openBkt_isOpen s b0 b h1 with e | e
+              · exact fromOpen hc e
+              · rw [e] at h2; cases h2
+            · rename_i hsent
+              have hs5 : hasSentinel (openBkt s b0) b0 = false := by simpa using hsent
+              have hq2 : SameQ s0 (takeSentinel (openBkt s b0) b0) := by
+                intro k; rw [takeSentinel_none _ b0 hs5]; exact sameQ_openBkt hq b0 k
+              cases ho : ((takeSentinel (openBkt s b0) b0).bkt b).isOpen with
+              | false => exact ih _ _ hq2 b h1 ho
+              | true =>
+                rw [takeSentinel_isOpen] at ho
+                rcases openBkt_isOpen s b0 b ho with e | e
+                · exact fromOpen hc e
+                · rw [e] at h2; cases h2
+        · exact ih _ _ hq b h1 h2
+
+theorem schedLoop_isOpen (bs : List Nat) : ∀ (s : State) (acc : Bool) (k : Nat),
+    ((schedSentinelsLoop s bs acc).1.bkt k).isOpen = (s.bkt k).isOpen := by
+  induction bs with
+  | nil => intro s acc k; rfl
+  | cons b bs ih =>
+    intro s acc k
+    unfold schedSentinelsLoop
+    split
+    · rw [ih, takeSentinel_isOpen]
+    · exact ih _ _ _
+
+theorem schedSentinels_isOpen (c : Cfg) (s : State) (k : Nat) : ((schedSentinels c s).1.bkt k).isOpen = (s.bkt k).isOpen := by
+  unfold schedSentinels; simp only [emit]; exact schedLoop_isOpen _ s false k
+
+theorem respond_isOpen (c : Cfg) (s s' : State) (tag : Nat) (r : LPR) (h : respond c s tag = some (s', r)) (k : Nat) :
+    (s'.bkt k).isOpen = (s.bkt k).isOpen := by
+  unfold respond at h
+  split at h
+  · cases h
+  · split at h
+    · injection h with h; injection h with h1 _; subst h1
+      simp only [addScheduleCollection, emit, pushBkt, setBkt, bump]
+      split
+      · rename_i e; subst e; rfl
+      · rfl
+    · split at h
+      · injection h with h; injection h with h1 _; subst h1; rfl
+      · split at h
+        · injection h with h; injection h with h1 _; subst h1; rfl
+        · injection h with h; injection h with h1 _; subst h1; rfl
+
+theorem onGcFinished_isOpen (c : Cfg) (hwf : c.WF) (s s' : State) (h : onGcFinished c s = some s') (k : Nat)
+    (hk : (c.info k).isSeq = true) : (s'.bkt k).isOpen = true → (s.bkt k).isOpen = true := by
+  unfold onGcFinished at h
+  split at h
+  · cases h
+  · split at h
+    · cases h
+    · split at h
+      · cases h
+      · rename_i s1 hc
+        injection h with h; subst h
+        obtain ⟨i1, _, _, _⟩ := closeLoop_props c _ _ _ hc
+        have hne : k ≠ c.concIdx := by
+          intro e; rw [e, hwf.seq_def, hwf.conc_not_stw] at hk; cases hk
+        intro ho
+        have : (s1.bkt k).isOpen = true := by
+          simp only [resume, emit] at ho
+          unfold schedConcurrent at ho
+          split at ho <;> simpa [emit, setBkt, hne] using ho
+        exact i1 k this
+
+/-- **C15 core**: `on_last_parked` opens a sequentially opened bucket only through `update_buckets`,
+i.e. only when every enabled bucket of its open condition was empty on entry -/
+theorem onLastParked_opens (c : Cfg) (hwf : c.WF) (s s' : State) (tag : Nat) (r : LPR)
+    (h : onLastParked c s tag = some (s', r)) (b : Nat) (hb : (c.info b).isSeq = true)
+    (h1 : (s.bkt b).isOpen = false) (h2 : (s'.bkt b).isOpen = true) :
+    s.current = some .gc ∧ ∀ b', b' ∈ curStages c b → (s.bkt b').enabled = true → (s.bkt b').q = [] := by
+  unfold onLastParked at h
+  split at h
+  · rw [respond_isOpen c _ _ _ _ h, h1] at h2; cases h2
+  · rename_i hcur
+    refine ⟨hcur, ?_⟩
+    split at h
+    · cases h
+    · split at h
+      · cases h
+      · split at h
+        · injection h with h; injection h with h1' _; subst h1'; rw [h1] at h2; cases h2
+        · split at h
+          · injection h with h; injection h with h1' _; subst h1'
+            rw [schedSentinels_isOpen, h1] at h2; cases h2
+          · rename_i hss
+            have hss' : (schedSentinels c s).2 = false := by simpa using hss
+            have hbk := schedSentinels_false c s hss'
+            have hq : SameQ s (schedSentinels c s).1 := fun k => by rw [hbk]; exact ⟨rfl, rfl⟩
+            have key : ∀ s2, s2 = (updateBuckets c (schedSentinels c s).1).1 → (s2.bkt b).isOpen = true →
+                ∀ b', b' ∈ curStages c b → (s.bkt b').enabled = true → (s.bkt b').q = [] := by
+              intro s2 e ho
+              subst e
+              have ho' : ((updateLoop c (schedSentinels c s).1 (List.range c.L) false).1.bkt b).isOpen = true := ho
+              exact (updateLoop_opens c s _ _ false hq b ho' (by rw [hbk]; exact h1)).2
+            split at h
+            · injection h with h; injection h with h1' _; subst h1'
+              exact key _ rfl h2
+            · split at h
+              · cases h
+              · rename_i s3 hg3
+                have o3 : (s3.bkt b).isOpen = true → ((updateBuckets c (schedSentinels c s).1).1.bkt b).isOpen = true :=
+                  onGcFinished_isOpen c hwf _ _ hg3 b hb
+                split at h
+                · injection h with h; injection h with h1' _; subst h1'
+                  exact key _ rfl (o3 h2)
+                · rw [respond_isOpen c _ _ _ _ h] at h2
+                  exact key _ rfl (o3 h2)
+  · cases h
+
+
+theorem notifyOne_same {c : Cfg} {s s' : State} {x : Option Nat} (h : notifyOne c s x = some s') :
+    s' = { s with pc := s'.pc } := by
+  rcases notifyOne_cases h with ⟨x0, _, _, _, rfl⟩ | ⟨_, _, rfl⟩ <;> rfl
+
+/-- what an action other than `park` can do to the goal counters and to the `open` flags -/
+theorem step_other (c : Cfg) (s s' : State) (a : Act) (hs : step c s a = some s') :
+    (∃ w tag, a = .park w tag) ∨
+    (s'.gcDone = s.gcDone ∧ s'.resumes = s.resumes ∧
+      ∀ b, (s'.bkt b).isOpen = true → (s.bkt b).isOpen = true ∨ (c.info b).isFirstStw = true) := by
+  cases a
+  case park w tag => exact Or.inl ⟨w, tag, rfl⟩
+  case openFirst w b0 =>
+    right
+    simp only [step] at hs
+    split at hs
+    · rename_i hg; injection hs with hs; subst hs
+      refine ⟨rfl, rfl, fun b hb => ?_⟩
+      simp only [setBkt] at hb
+      split at hb
+      · rename_i e; subst e; exact Or.inr hg.2.2.2.1
+      · exact Or.inl hb
+    · cases hs
+  case makeRequest g x =>
+    right
+    simp only [step] at hs
+    have hc : (consumePending s g).gcDone = s.gcDone ∧ (consumePending s g).resumes = s.resumes ∧ (consumePending s g).bkt = s.bkt := by
+      unfold consumePending; split <;> exact ⟨rfl, rfl, rfl⟩
+    split at hs
+    · cases hs
+    · split at hs
+      · split at hs
+        · injection hs with hs; subst hs; exact ⟨hc.1, hc.2.1, fun b hb => Or.inl (by rw [← hc.2.2]; exact hb)⟩
+        · cases hs
+      · have := notifyOne_same hs
+        rw [this]
+        cases g <;> exact ⟨hc.1, hc.2.1, fun b hb => Or.inl (by rw [← hc.2.2]; exact hb)⟩
+  case bucketNotifyOne w b0 x =>
+    right
+    simp only [step] at hs
+    split at hs
+    · rw [notifyOne_same hs]; exact ⟨rfl, rfl, fun b hb => Or.inl hb⟩
+    · cases hs
+  case mutNotifyOne b0 x =>
+    right
+    simp only [step] at hs
+    split at hs
+    · rw [notifyOne_same hs]; exact ⟨rfl, rfl, fun b hb => Or.inl hb⟩
+    · cases hs
+  case wake w =>
+    right
+    simp only [step] at hs
+    split at hs
+    · injection hs with hs; subst hs
+      obtain ⟨p, _, he⟩ := afterUnpark_pc { s with parked := s.parked - 1 } w
+      rw [he]; exact ⟨rfl, rfl, fun b hb => Or.inl hb⟩
+    · cases hs
+  all_goals
+    right
+    simp only [step] at hs
+    repeat' (split at hs)
+    all_goals first
+      | (injection hs with hs; subst hs
+         refine ⟨rfl, rfl, fun b hb => Or.inl ?_⟩
+         first
+          | exact hb
+          | (simp only [setBkt, pushBkt, bump, setBuf, setPc] at hb
+             first
+              | exact hb
+              | (split at hb
+                 · rename_i e; subst e; exact hb
+                 · exact hb)))
+      | cases hs
+
+
+/-- the shape of a `park` step: not last → wait; last → `on_last_parked`, then only `pc`/`parked` change -/
+theorem step_park_cases {c : Cfg} {s s' : State} {w tag : Nat} (hs : step c s (.park w tag) = some s') :
+    w < c.n ∧ s.pc w = .parking ∧ s.parked < c.n ∧
+    ((s.parked + 1 ≠ c.n ∧ s' = setPc { s with parked := s.parked + 1, trace := [] } w .waiting) ∨
+     (s.parked + 1 = c.n ∧ ∃ s1 r, onLastParked c { s with parked := s.parked + 1, trace := [] } tag = some (s1, r) ∧
+        s' = { s1 with pc := s'.pc, parked := s'.parked })) := by
+  simp only [step] at hs
+  split at hs
+  · rename_i hg
+    refine ⟨hg.1, hg.2.1, hg.2.2, ?_⟩
+    split at hs
+    · rename_i hlast
+      right
+      refine ⟨hlast, ?_⟩
+      split at hs
+      · cases hs
+      · rename_i s1 hl; injection hs with hs; subst hs; exact ⟨s1, _, hl, rfl⟩
+      · rename_i s1 hl; injection hs with hs; subst hs
+        obtain ⟨p, _, he⟩ := afterUnpark_pc { s1 with parked := s1.parked - 1 } w
+        exact ⟨s1, _, hl, by rw [he]; rfl⟩
+      · rename_i s1 hl; injection hs with hs; subst hs
+        obtain ⟨p, _, he⟩ := afterUnpark_pc { notifyAll s1 with parked := (notifyAll s1).parked - 1 } w
+        exact ⟨s1, _, hl, by rw [he]; rfl⟩
+    · rename_i hnl
+      left
+      injection hs with hs
+      exact ⟨hnl, hs.symm⟩
+  · cases hs
+
+
 end Mmtk.Sched
